@@ -381,4 +381,270 @@ theorem gridProduct_loop (ds : List Nat) (h1 : 1 ∈ ds) (hpos : ∀ d ∈ ds, 0
         subst h
         exact Or.inl ⟨Or.inl cycle_one_loop, trivial⟩
 
+/-! ### counting edges -/
+
+theorem length_flatMap_const {α β} (l : List α) (f : α → List β) (c : Nat) (h : ∀ a ∈ l, (f a).length = c) :
+    (l.flatMap f).length = l.length * c := by
+  induction l with
+  | nil => simp
+  | cons a as ih =>
+    rw [List.flatMap_cons, List.length_append, h a (by simp), ih (fun b hb => h b (by simp [hb])), List.length_cons]
+    rw [Nat.add_mul, Nat.one_mul, Nat.add_comm]
+
+theorem product_oriented {A B : NxG} (lA : A.Loopless) (lB : B.Loopless) : (cartesianProduct A B).Oriented := by
+  rintro ⟨r, s⟩ he
+  rcases mem_product_tedges.1 he with ⟨u, v, x, hm, hx, rfl, rfl⟩ | ⟨x, u, v, hx, hm, rfl, rfl⟩
+  · have h := NxG.mem_edges.1 hm
+    have hne := lA.of_E h.2.2
+    have hlt : u < v := by omega
+    have : u * B.n < v * B.n := Nat.mul_lt_mul_of_pos_right hlt (by omega)
+    simp only; omega
+  · have h := NxG.mem_edges.1 hm
+    have hne := lB.of_E h.2.2
+    simp only; omega
+
+theorem product_tedges_nodup {A B : NxG} (hB : B.WF) (lA : A.Loopless) :
+    (cartesianProduct A B).tedges.Nodup := by
+  unfold cartesianProduct
+  simp only
+  apply List.Nodup.append
+  · rw [List.nodup_flatMap]
+    constructor
+    · intro e _
+      apply List.nodup_range.map
+      intro x y h
+      simp only [Prod.mk.injEq] at h
+      omega
+    · apply (NxG.nodup_edges A).pairwise_of_forall_ne
+      intro e he f hf hne
+      simp only [Function.onFun]
+      intro z hz1 hz2
+      simp only [List.mem_map, List.mem_range] at hz1 hz2
+      obtain ⟨x, hx, rfl⟩ := hz1
+      obtain ⟨y, hy, h⟩ := hz2
+      simp only [Prod.mk.injEq] at h
+      apply hne
+      have h1 := congrArg (· / B.n) h.1
+      have h2 := congrArg (· / B.n) h.2
+      simp only [mul_add_div' hx, mul_add_div' hy] at h1 h2
+      exact Prod.ext h1.symm h2.symm
+  · rw [List.nodup_flatMap]
+    constructor
+    · intro x _
+      apply (NxG.nodup_edges B).map
+      intro e f h
+      simp only [Prod.mk.injEq] at h
+      exact Prod.ext (by omega) (by omega)
+    · apply List.nodup_range.pairwise_of_forall_ne
+      intro x _ y _ hne
+      simp only [Function.onFun]
+      intro z hz1 hz2
+      simp only [List.mem_map] at hz1 hz2
+      obtain ⟨e, he, rfl⟩ := hz1
+      obtain ⟨f, hf, h⟩ := hz2
+      simp only [Prod.mk.injEq] at h
+      apply hne
+      have he1 := (hB.of_E (NxG.mem_edges'.1 he).2.2).1
+      have hf1 := (hB.of_E (NxG.mem_edges'.1 hf).2.2).1
+      have h1 := congrArg (· / B.n) h.1
+      simp only [mul_add_div' he1, mul_add_div' hf1] at h1
+      exact h1.symm
+  · intro z hz1 hz2
+    simp only [List.mem_flatMap, List.mem_map, List.mem_range] at hz1 hz2
+    obtain ⟨e, he, x, hx, rfl⟩ := hz1
+    obtain ⟨y, _, f, hf, h⟩ := hz2
+    simp only [Prod.mk.injEq] at h
+    have hE := NxG.mem_edges'.1 he
+    have hne := lA.of_E hE.2.2
+    have hf1 := hB.of_E (NxG.mem_edges'.1 hf).2.2
+    have h1 := congrArg (· / B.n) h.1
+    have h2 := congrArg (· / B.n) h.2
+    simp only [mul_add_div' hx, mul_add_div' hf1.1, mul_add_div' hf1.2] at h1 h2
+    exact hne (h1.symm.trans h2)
+
+/-- |E(A □ B)| = |E(A)|·|V(B)| + |V(A)|·|E(B)| -/
+theorem product_edges_length {A B : NxG} (hA : A.WF) (hB : B.WF) (lA : A.Loopless) (lB : B.Loopless) :
+    (cartesianProduct A B).edges.length = A.edges.length * B.n + A.n * B.edges.length := by
+  rw [NxG.length_edges (product_WF hA hB) (product_oriented lA lB) (product_tedges_nodup hB lA)]
+  unfold cartesianProduct
+  simp only [List.length_append]
+  rw [length_flatMap_const _ _ B.n (by intro a _; simp), length_flatMap_const _ _ B.edges.length (by intro a _; simp)]
+  simp
+
+/-- number of edges of the path / cycle on `d` nodes (the cycle on 2 nodes is one edge) -/
+def lineEdges (p : Bool) (d : Nat) : Nat := if p = true ∧ 3 ≤ d then d else d - 1
+
+/-- `Σ_i lineEdges d_i · Π_{j≠i} d_j` -/
+def gridEdgeCount (p : Bool) : List Nat → Nat
+  | [] => 0
+  | d :: ds => lineEdges p d * prodL ds + d * gridEdgeCount p ds
+
+theorem gridEdgeCount_snoc (p : Bool) (ds : List Nat) (d : Nat) :
+    gridEdgeCount p (ds ++ [d]) = lineEdges p d * prodL ds + d * gridEdgeCount p ds := by
+  induction ds with
+  | nil => simp [gridEdgeCount, prodL]
+  | cons x xs ih =>
+    simp only [List.cons_append, gridEdgeCount, ih, prodL, prodL_snoc]
+    ring
+
+theorem nodup_pathPairs (d : Nat) : (pathPairs d).Nodup := by
+  apply List.nodup_range.map
+  intro a b h
+  simp only [Prod.mk.injEq] at h
+  exact h.1
+
+theorem lineGraph_edges_length {p : Bool} {d : Nat} (h : ¬ (p = true ∧ d = 1)) :
+    (lineGraph p d).edges.length = lineEdges p d := by
+  by_cases hp : p = true ∧ 3 ≤ d
+  · -- the cycle on at least three nodes
+    obtain ⟨rfl, hd⟩ := hp
+    have hE : ∀ u v, (lineGraph true d).E u v ↔ NxG.E ⟨d, pathPairs d ++ [(0, d - 1)]⟩ u v := by
+      intro u v
+      rw [lineGraph_E]
+      simp only [NxG.E, LineAdj, List.mem_append, mem_pathPairs, List.mem_singleton, Prod.mk.injEq, true_and]
+      omega
+    rw [NxG.edges_length_congr (H := ⟨d, pathPairs d ++ [(0, d - 1)]⟩) (lineGraph_n true d) hE]
+    rw [NxG.length_edges]
+    · simp [lineEdges, hd, pathPairs]; omega
+    · intro e he
+      simp only [List.mem_append, List.mem_singleton] at he
+      rcases he with he | he
+      · obtain ⟨a, b⟩ := e; have := mem_pathPairs.1 he; simp only; omega
+      · subst he; simp only; omega
+    · intro e he
+      simp only [List.mem_append, List.mem_singleton] at he
+      rcases he with he | he
+      · obtain ⟨a, b⟩ := e; have := mem_pathPairs.1 he; simp only; omega
+      · subst he; simp only; omega
+    · apply List.Nodup.append (nodup_pathPairs d) (by simp)
+      intro z hz1 hz2
+      simp only [List.mem_singleton] at hz2
+      subst hz2
+      have := mem_pathPairs.1 hz1
+      omega
+  · have hle : lineEdges p d = d - 1 := by simp [lineEdges, hp]
+    rw [hle]
+    by_cases hp2 : p = true
+    · subst hp2
+      have hd : d = 0 ∨ d = 2 := by
+        have : ¬ 3 ≤ d := fun h3 => hp ⟨rfl, h3⟩
+        have : d ≠ 1 := fun h1 => h ⟨rfl, h1⟩
+        omega
+      rcases hd with rfl | rfl <;> decide
+    · have hpf : p = false := by cases p <;> simp_all
+      subst hpf
+      have hG : lineGraph false d = ⟨d, pathPairs d⟩ := rfl
+      rw [hG, NxG.length_edges]
+      · simp [pathPairs]
+      · intro e he
+        obtain ⟨a, b⟩ := e; have := mem_pathPairs.1 he; simp only; omega
+      · intro e he
+        obtain ⟨a, b⟩ := e; have := mem_pathPairs.1 he; simp only; omega
+      · exact nodup_pathPairs d
+
+/-- the number of edges of `grid_graph(dims, periodic)` -/
+theorem gridProduct_edges_length (p : Bool) : ∀ ds : List Nat, ds ≠ [] → ¬ (p = true ∧ 1 ∈ ds) →
+    (gridProduct p ds).edges.length = gridEdgeCount p ds := by
+  apply snoc_induction
+  · intro h; exact absurd rfl h
+  · intro ds d ih _ h1
+    have hd : ¬ (p = true ∧ d = 1) := fun h => h1 ⟨h.1, by simp [h.2]⟩
+    rw [gridEdgeCount_snoc]
+    by_cases hne : ds = []
+    · subst hne
+      simp [gridProduct_single, lineGraph_edges_length hd, gridEdgeCount, prodL]
+    · have h1' : ¬ (p = true ∧ 1 ∈ ds) := fun h => h1 ⟨h.1, by simp [h.2]⟩
+      obtain ⟨hn, hW, _⟩ := gridProduct_spec p ds hne
+      rw [gridProduct_snoc p hne, product_edges_length (lineGraph_WF p d) hW (lineGraph_loopless hd)
+        (gridProduct_loopless p ds hne h1'), lineGraph_edges_length hd, hn, lineGraph_n, ih hne h1']
+
+/-! ### degrees -/
+
+/-- deg_{A □ B}(a, b) = deg_A(a) + deg_B(b) -/
+theorem product_deg {A B : NxG} (hA : A.WF) (hB : B.WF) (lA : A.Loopless) {r : Nat} (hr : r < A.n * B.n) :
+    (cartesianProduct A B).deg r = A.deg (r / B.n) + B.deg (r % B.n) := by
+  have hpos : 0 < B.n := by
+    rcases Nat.eq_zero_or_pos B.n with h0 | h0
+    · rw [h0] at hr; simp at hr
+    · exact h0
+  have hg : r % B.n < B.n := Nat.mod_lt _ hpos
+  unfold NxG.deg
+  rw [← List.length_map (f := fun a' => a' * B.n + r % B.n) (as := A.nbrList (r / B.n)),
+    ← List.length_map (f := fun g' => r / B.n * B.n + g') (as := B.nbrList (r % B.n)), ← List.length_append]
+  apply List.Perm.length_eq
+  rw [List.perm_ext_iff_of_nodup (NxG.nodup_nbrList _ _)]
+  · intro s
+    rw [NxG.mem_nbrList, product_E hA hB, product_n]
+    simp only [List.mem_append, List.mem_map, NxG.mem_nbrList]
+    constructor
+    · rintro ⟨hs, _, _, h⟩
+      rcases h with ⟨h1, h2⟩ | ⟨h1, h2⟩
+      · left
+        refine ⟨s / B.n, ⟨(hA.of_E h1).2, h1⟩, ?_⟩
+        rw [h2]; exact div_mul_add_mod s B.n
+      · right
+        refine ⟨s % B.n, ⟨Nat.mod_lt _ hpos, h2⟩, ?_⟩
+        rw [h1]; exact div_mul_add_mod s B.n
+    · rintro (⟨a', ⟨ha', hE⟩, rfl⟩ | ⟨g', ⟨hg', hE⟩, rfl⟩)
+      · have hlt := mul_add_lt ha' hg
+        refine ⟨hlt, hr, hlt, Or.inl ?_⟩
+        rw [mul_add_div' hg, mul_add_mod' hg]
+        exact ⟨hE, rfl⟩
+      · have hlt : r / B.n * B.n + g' < A.n * B.n :=
+          mul_add_lt (Nat.div_lt_of_lt_mul (by rw [Nat.mul_comm]; exact hr)) hg'
+        refine ⟨hlt, hr, hlt, Or.inr ?_⟩
+        rw [mul_add_div' hg', mul_add_mod' hg']
+        exact ⟨rfl, hE⟩
+  · apply List.Nodup.append
+    · apply (NxG.nodup_nbrList _ _).map
+      intro x y h
+      simp only at h
+      have := Nat.add_right_cancel h
+      exact Nat.eq_of_mul_eq_mul_right hpos this
+    · apply (NxG.nodup_nbrList _ _).map
+      intro x y h
+      simp only at h
+      omega
+    · intro z hz1 hz2
+      simp only [List.mem_map, NxG.mem_nbrList] at hz1 hz2
+      obtain ⟨a', ⟨_, hE⟩, rfl⟩ := hz1
+      obtain ⟨g', ⟨hg', _⟩, h⟩ := hz2
+      have h1 := congrArg (· / B.n) h
+      simp only [mul_add_div' hg, mul_add_div' hg'] at h1
+      exact lA.of_E hE h1
+
+/-- on a cycle of length at least 3 every node has exactly two neighbours -/
+theorem cycle_deg {d a : Nat} (hd : 3 ≤ d) (ha : a < d) : (lineGraph true d).deg a = 2 := by
+  unfold NxG.deg
+  have : (lineGraph true d).nbrList a |>.Perm [if a + 1 = d then 0 else a + 1, if a = 0 then d - 1 else a - 1] := by
+    rw [List.perm_ext_iff_of_nodup (NxG.nodup_nbrList _ _)]
+    · intro s
+      rw [NxG.mem_nbrList, lineGraph_n, lineGraph_E]
+      simp only [LineAdj, true_and, List.mem_cons, List.not_mem_nil, or_false]
+      split <;> split <;> omega
+    · simp only [List.nodup_cons, List.mem_singleton, List.not_mem_nil, not_false_eq_true, List.nodup_nil, and_true]
+      split <;> split <;> omega
+  rw [this.length_eq]; rfl
+
+/-- the torus with all dimensions at least 3 is `2k`-regular -/
+theorem torus_deg : ∀ ds : List Nat, ds ≠ [] → (∀ d ∈ ds, 3 ≤ d) → ∀ r, r < prodL ds →
+    (gridProduct true ds).deg r = 2 * ds.length := by
+  apply snoc_induction
+  · intro h; exact absurd rfl h
+  · intro ds d ih _ h3 r hr
+    have hd : 3 ≤ d := h3 d (by simp)
+    rw [prodL_snoc] at hr
+    by_cases hne : ds = []
+    · subst hne
+      simp only [prodL, Nat.mul_one] at hr
+      simp [gridProduct_single, cycle_deg hd hr]
+    · have h3' : ∀ x ∈ ds, 3 ≤ x := fun x hx => h3 x (by simp [hx])
+      obtain ⟨hn, hW, _⟩ := gridProduct_spec true ds hne
+      have hP : 0 < prodL ds := prodL_pos (fun x hx => by have := h3' x hx; omega)
+      rw [gridProduct_snoc true hne, product_deg (lineGraph_WF true d) hW
+        (lineGraph_loopless (by omega)) (by rw [lineGraph_n, hn]; exact hr), hn,
+        cycle_deg hd (Nat.div_lt_of_lt_mul (by rw [Nat.mul_comm]; exact hr)), ih hne h3' _ (Nat.mod_lt _ hP)]
+      simp only [List.length_append, List.length_singleton]
+      omega
+
 end Cnfgen.Nx
